@@ -117,6 +117,8 @@ impl MT940 {
             Some(forward_balances)
         };
 
+        crate::parser::utils::verify_parser_complete(&parser)?;
+
         Ok(MT940 {
             field_20,
             field_21,
